@@ -695,7 +695,7 @@ def _dec_first_diff(t):
     a = dec_scores((None, None), chunk)
     b = dec_scores(ctxspec, chunk)
     for x, y in zip(a, b):
-        if x != y:
+        if repr(x) != repr(y):      # repr: -0.0 and 0.0 print differently (the digests use repr too)
             return x, y
     return None
 
